@@ -49,6 +49,7 @@ class Seam:
         self.unsimulated = 0
         self.installed = False
         self.stats = None
+        self.flocks = {}           # path -> {"ex": proc or None, "sh": set of procs}: advisory locks (flock / lockf / fcntl) between simulated processes
 
     # ---- life cycle -------------------------------------------------------------------
     def install(self):
@@ -109,6 +110,23 @@ class Seam:
         real_time, real_time_ns = _time.time, _time.time_ns
         _time.time = lambda: s.clock if (s.current is not None and not s.inside) else real_time()
         _time.time_ns = lambda: int(s.clock * 1e9) if (s.current is not None and not s.inside) else real_time_ns()
+        try:
+            import fcntl as _fcntl
+            real_flock, real_lockf, real_fcntl = _fcntl.flock, _fcntl.lockf, _fcntl.fcntl
+
+            def _fd(f):
+                return f if isinstance(f, int) else f.fileno()
+
+            def flock(f, op):
+                r = s._lock_request(_fd(f), bool(op & _fcntl.LOCK_EX), bool(op & _fcntl.LOCK_UN), bool(op & _fcntl.LOCK_NB))
+                return None if r else real_flock(f, op)
+
+            def lockf(f, cmd, *a):
+                r = s._lock_request(_fd(f), bool(cmd & _fcntl.LOCK_EX), bool(cmd & _fcntl.LOCK_UN), bool(cmd & _fcntl.LOCK_NB))
+                return None if r else real_lockf(f, cmd, *a)
+            _fcntl.flock, _fcntl.lockf = flock, lockf
+        except ImportError:
+            pass
         builtins.open = s._open
         io.open = s._open
         importlib.machinery.SourceFileLoader = SimSourceFileLoader
@@ -123,6 +141,7 @@ class Seam:
         self.names = {}
         self.current = None
         self.fds = {}
+        self.flocks = {}
         self.unsimulated = 0
 
     def close_all(self):
@@ -134,10 +153,10 @@ class Seam:
         self.fds = {}
 
     def save(self):
-        return (self.root, self.sched, self.events, self.stats, self.clock, self.names, self.fds, self.current)
+        return (self.root, self.sched, self.events, self.stats, self.clock, self.names, self.fds, self.current, self.flocks)
 
     def restore(self, saved):
-        (self.root, self.sched, self.events, self.stats, self.clock, self.names, self.fds, self.current) = saved
+        (self.root, self.sched, self.events, self.stats, self.clock, self.names, self.fds, self.current, self.flocks) = saved
 
     # ---- helpers ----------------------------------------------------------------------
     def _sim(self, path):
@@ -317,6 +336,7 @@ class Seam:
         finally:
             if not proc.dead:
                 self.fds.pop(fd, None)
+            self._release_locks_of(proc, rel)
 
     def _os_fsync(self, fd):
         ent = self.fds.get(fd)
@@ -347,8 +367,62 @@ class Seam:
         data = self._do(proc, "read-file", rel, do)
         return data
 
+    # ---- advisory file locks ---------------------------------------------------------------
+    # Simulated processes are threads of ONE operating-system process: POSIX record locks (lockf / fcntl) would
+    # never conflict between them and a blocking flock would stall the whole simulation, so both families are
+    # emulated per simulated process on a table keyed by path: exclusive / shared, non-blocking requests fail with
+    # BlockingIOError, blocking ones wait cooperatively (the waiter yields until the holder unlocks, closes or dies).
+    def _lock_request(self, fd, exclusive, unlock, nonblocking):
+        ent = self.fds.get(fd)
+        if ent is None or self.current is None or self.inside:
+            return None
+        rel, proc = ent
+        spins = 0
+        while True:
+            spins += 1
+            if spins > 20000:
+                raise RuntimeError("seam: %s waits for a file lock on %s that nobody will ever release" % (proc.label, rel))
+            self.sched.before_op(proc, "unlock" if unlock else ("lock-ex" if exclusive else "lock-sh"), rel, "")
+            st = self.flocks.setdefault(rel, {"ex": None, "sh": set()})
+            if st["ex"] is not None and st["ex"].dead:
+                st["ex"] = None
+            st["sh"] = {p for p in st["sh"] if not p.dead}
+            if unlock:
+                if st["ex"] is proc:
+                    st["ex"] = None
+                st["sh"].discard(proc)
+                self.log(proc, "unlock %s" % self.norm(rel))
+                return True
+            others_sh = st["sh"] - {proc}
+            free = (st["ex"] in (None, proc)) and (not exclusive or not others_sh)
+            if free:
+                if exclusive:
+                    st["ex"] = proc
+                    st["sh"].discard(proc)
+                else:
+                    if st["ex"] is proc:
+                        st["ex"] = None
+                    st["sh"].add(proc)
+                self.log(proc, "%s %s" % ("lock-ex" if exclusive else "lock-sh", self.norm(rel)))
+                return True
+            if nonblocking:
+                self.log(proc, "lock %s -> EAGAIN" % self.norm(rel))
+                raise BlockingIOError(_errno.EAGAIN, "Resource temporarily unavailable")
+            proc.blocked_on_lock = rel         # wait: the scheduler should run somebody else
+            if self.stats is not None:
+                self.stats["probe:waited-for-a-file-lock"] += 1
+
+    def _release_locks_of(self, proc, rel=None):
+        for r, st in self.flocks.items():
+            if rel is not None and r != rel:
+                continue
+            if st["ex"] is proc:
+                st["ex"] = None
+            st["sh"].discard(proc)
+
     def kill_fds_of(self, proc):
         """the kernel closes the descriptors of a dead process"""
+        self._release_locks_of(proc)
         for fd, ent in list(self.fds.items()):
             if ent[1] is proc:
                 try:
